@@ -441,6 +441,10 @@ func (*c04) Oracle(ci, oi any) []hx.Violation {
 					add("set-changes-other-path", fmt.Sprintf("%s(%q): path %s is not named by the expression but changed from %#v (%v) to %#v (%v)", c.Parse.Fn, c.Parse.S, pstr(q), b, bok, a, aok))
 				}
 			}
+			// (3) round 4: the same on deep paths (list indexes nested to any depth), and the padding
+			if c.Parse.V2 {
+				c04DeepFrame(c.Parse, before, out, add)
+			}
 		}
 	case "files", "mergemaps":
 		srcs := c.Files
